@@ -1089,7 +1089,7 @@ pub const POLY_LIB: &[(&str, &str, &str)] = &[
     // (the labelled definition itself is not judged: empty signature)
     ("poly_fold", "fn poly_fold(over $1: List(a), from $2: b, with $3: fn(b, a) -> b) -> b { let _ = $1 let _ = $3 $2 }", ""),
     ("poly_sum", "fn poly_sum() { use $1, $2 <- poly_fold(from: 0, over: [1.5]) let _ = $2 $1 }", "fn() -> Int"),
-    ("poly_sum2", "fn poly_sum2() { use $1, $2 <- poly_fold(over: [\"s\"], from: 0.5) let _ = $1 $2 }", "fn() -> String"),
+    ("poly_sum2", "fn poly_sum2() { use $1, $2 <- poly_fold(over: [\"s\"], from: 0.5) let _ = $2 $1 }", "fn() -> Float"),
 ];
 
 /// Instantiate a helper's binder names: ordinary names, or (one time in three each) the
